@@ -60,6 +60,21 @@ fn run_tls(toks: &[&str], em: &mut Emitter) {
     em.case(&line, move || obs);
 }
 
+/// reference walk over the stream: where the header of the first frame whose declared length is
+/// shorter than its own header ends (nothing beyond that point belongs to the rejected frame)
+fn first_undersized_end(d: &[u8]) -> Option<usize> {
+    let mut off = 0usize;
+    loop {
+        if off + 2 > d.len() { return None; }
+        let (n, hdr) = if d[off] == 3 { if off + 4 > d.len() { return None; } (((d[off + 2] as usize) << 8) | d[off + 3] as usize, 4) }
+            else if d[off + 1] & 0x80 != 0 { if off + 3 > d.len() { return None; } ((((d[off + 1] & 0x7f) as usize) << 8) | d[off + 2] as usize, 3) }
+            else { (d[off + 1] as usize, 2) };
+        if n < hdr { return Some(off + hdr); }
+        if off + n > d.len() { return None; }
+        off += n;
+    }
+}
+
 pub fn run_case(toks: &[&str], em: &mut Emitter) {
     if toks[0] == "tpkt_tls" { return run_tls(toks, em); }
     let line = toks.join(" ");
@@ -84,8 +99,13 @@ pub fn run_case(toks: &[&str], em: &mut Emitter) {
             }
         }
         let nontrivial = !items.is_empty();
+        let total = pipe.0.borrow().inbox.len();
+        let consumed = total - pipe.left().len();
         if ok { items.push(format!("left={}", hex(&pipe.left()))); } else { items.push("E".to_string()); }
-        Obs::new(items.join(";")).nt(nontrivial)
+        let mut o = Obs::new(items.join(";")).nt(nontrivial);
+        // a refused under-sized frame: not one byte beyond its header may have been taken from the stream
+        if !ok { if let Some(end) = first_undersized_end(&pipe.0.borrow().inbox) { if consumed > end { o = o.viol(&format!("{} bytes consumed although the rejected frame's header ends at {}", consumed, end)); } } }
+        o
     });
 }
 
